@@ -42,10 +42,13 @@ class SimProblem(Problem):
         self.spec = spec
         self.um = UserModel(spec)
         um = self.um
+        # caller-owned bound arrays, kept to verify they are never modified (C11)
+        self.given = {"xl": um.xl.copy(), "xu": um.xu.copy(), "cl": um.cl.copy(), "cu": um.cu.copy()}
+        g = self.given
         if um.m > 0:
-            super().__init__(um.xl.copy(), um.xu.copy(), cons_lb=um.cl.copy(), cons_ub=um.cu.copy())
+            super().__init__(g["xl"], g["xu"], cons_lb=g["cl"], cons_ub=g["cu"])
         else:
-            super().__init__(um.xl.copy(), um.xu.copy())
+            super().__init__(g["xl"], g["xu"])
         self.policy = policy or spec.get("policy", "fresh")
         self.fmt = fmt or spec.get("fmt", "coo")
         self.log = log  # callable(event tuple) or None
@@ -140,22 +143,37 @@ class SimProblem(Problem):
 
     def _hand_out(self, comp, v):
         if self.track_alias:
-            self.handed.append((comp, v, self._snapshot(v), self.total[comp]))
+            key = id(v)
+            ent = self.handed_by_id.get(key)
+            if ent is None or ent[1] is not v:
+                ent = [comp, v, self._snapshot(v), self.total[comp], 0]
+                self.handed_by_id[key] = ent
+                self.handed.append(ent)
+            ent[4] += 1
         return v
 
-    def _check_handed(self, when):
-        for (comp, v, snap, k) in self.handed:
+    def _check_handed(self, when, full=False):
+        # every call re-checks the most recently handed-out objects (the ones the solver can
+        # still be working on); the end of the solve re-checks all of them
+        ents = self.handed if full else self.handed[-12:]
+        for ent in ents:
+            comp, v, snap, k, _ = ent
             if not self._same_value(v, snap):
                 self.mutations.append((comp, k, when))
-                # re-snapshot so one mutation is reported once
-        if self.mutations:
-            self.handed = [(c, v, self._snapshot(v), k) for (c, v, _, k) in self.handed]
+                ent[2] = self._snapshot(v)  # report one mutation once
 
     mutations = ()
+
+    def given_modified(self):
+        um = self.um
+        ref = {"xl": um.xl, "xu": um.xu, "cl": um.cl, "cu": um.cu}
+        return [k for k, v in self.given.items() if v.tobytes() != ref[k].tobytes()]
 
     def start_alias_tracking(self):
         self.track_alias = True
         self.mutations = []
+        self.handed = []
+        self.handed_by_id = {}
 
     # ---- return policies
     def _sparse(self, dense):
